@@ -7,6 +7,7 @@ use crate::common::*;
 use rand::prelude::*;
 use serde_json::{json, Value};
 use servlin::internal::*;
+#[allow(unused_imports)]
 use servlin::*;
 use std::io::{Read, Write};
 
